@@ -1,14 +1,20 @@
 import KmipProps.C04
 import KmipModel.Stream
+import KmipProofs.IoLemmas
 /-
   C06 — message framing on a stream is independent of how the transport fragments bytes.
 
   Proved here (flat view of the stream): each successful Decode consumes exactly its own message — 8 bytes plus the declared
   length — and leaves the decoder with nothing buffered at the first byte of the next message; hence successive Decode calls
   on one Decoder return back-to-back messages one by one, and then report raw io.EOF at the clean end of the stream.
-  Fragmentation independence proper (io.ReadFull / bufio / io.LimitReader over arbitrary chunkings agree with the flat view)
-  is NOT proved in Lean: it is the assumption under which the model is flat, and it is what kvrun C06 exercises exhaustively
-  (every two-way split offset, one-byte reads, random chunks with zero-length reads, data-with-EOF; buffered and unbuffered).
+  Fragmentation independence: the decoder reads its source only through io.ReadFull, ReadByte and a per-structure
+  io.LimitReader.  `C06_readFull_chunk_independent` and `C06_limit_chunk_independent` (bottom of this file) prove that Go's
+  ReadFull loop, directly and through a LimitReader, over ANY way of cutting the same bytes into Read results (zero-length
+  reads, last data together with the final error included) returns exactly what the flat reader of the decoder model returns
+  and leaves a source carrying exactly the remaining bytes.  What is still assumed, not proved: that bufio.Reader hands on
+  the bytes of its source in order (it is a re-chunking), and that the decoder model's composition of these primitives is
+  decode.go's — both exercised by kvrun C06 (every two-way split offset, one-byte reads, random chunks with zero-length
+  reads, data-with-EOF in small and in full reads; buffered and unbuffered).
 -/
 namespace Kmip
 
@@ -148,5 +154,89 @@ theorem C06_clean_eof (sd : SD) (hd : sd.descOk = true) : decodeSD sd [] .eof = 
     simp only [hd, if_true, decStruct]
     rw [expectTag_eval]
     simp [Fin.err]
+
+/-! ### fragmentation independence of the reader primitives -/
+
+/-- what a ReadFull leaves behind, forgetting how the source is cut into chunks: bytes read, bytes still to come, final error -/
+def viewSrc : Outcome (Bytes × Io.Src) → Outcome (Bytes × Bytes × Fin)
+  | .ok (b, s') => .ok (b, s'.flat, s'.fin)
+  | .err e => .err e
+  | .panic p => .panic p
+
+def viewDec : Outcome (Bytes × Dec) → Outcome (Bytes × Bytes × Fin)
+  | .ok (b, d') => .ok (b, d'.win, d'.fin)
+  | .err e => .err e
+  | .panic p => .panic p
+
+/-- Go's `io.ReadFull` over any chunking of the source is the decoder model's flat `readFull` -/
+theorem C06_readFull_chunk_independent (s : Io.Src) (k last : Nat) :
+    viewSrc (s.readFull k) = viewDec (readFull ⟨s.flat, s.fin, last⟩ k) := by
+  obtain ⟨h1, h2⟩ := Io.readFull_flat s k
+  unfold readFull
+  by_cases hk : k ≤ s.flat.length
+  · obtain ⟨s', e1, e2, e3, _⟩ := h1 hk
+    simp only [hk, if_true, e1, viewSrc, viewDec, e2, e3]
+  · rw [h2 hk]
+    simp only [hk, if_false, viewSrc, viewDec]
+    by_cases hz : s.flat.length = 0
+    · simp [hz]
+    · simp [hz]
+
+/-- hence two sources carrying the same bytes and ending the same way are indistinguishable through ReadFull,
+    however differently they are fragmented -/
+theorem C06_chunking_irrelevant (s₁ s₂ : Io.Src) (hb : s₁.flat = s₂.flat) (hf : s₁.fin = s₂.fin) (k : Nat) :
+    viewSrc (s₁.readFull k) = viewSrc (s₂.readFull k) := by
+  rw [C06_readFull_chunk_independent s₁ k 0, C06_readFull_chunk_independent s₂ k 0, hb, hf]
+
+/-- the same through `io.LimitReader(src, n)`: the nested decoder of a structure body sees exactly the model's `limitDec` window -/
+def viewLim : Outcome (Bytes × Io.Lim) → Outcome (Bytes × Bytes × Fin)
+  | .ok (b, l') => .ok (b, l'.src.flat.take l'.n, if l'.n ≤ l'.src.flat.length then .eof else l'.src.fin)
+  | .err e => .err e
+  | .panic p => .panic p
+
+theorem C06_limit_chunk_independent (s : Io.Src) (n k : Nat) :
+    viewLim ((Io.Lim.mk s n).readFull k) = viewDec (readFull (limitDec ⟨s.flat, s.fin, 0⟩ n) k) := by
+  obtain ⟨h1, h2⟩ := Io.Lim.readFull_flat ⟨s, n⟩ k
+  simp only at h1 h2
+  unfold limitDec readFull
+  by_cases hn : n ≤ s.flat.length
+  · have hmin : min n s.flat.length = n := by omega
+    rw [hmin] at h1 h2
+    simp only [hn, if_true, List.length_take, hmin]
+    by_cases hk : k ≤ n
+    · obtain ⟨l', e1, e2, e3, e4⟩ := h1 hk
+      simp only [hk, if_true, e1, viewLim, viewDec, e2, e3]
+      have hle : n - k ≤ (s.flat.drop k).length := by simp; omega
+      simp only [hle, if_true]
+      congr 2
+      · rw [List.take_take, Nat.min_eq_left hk]
+      · congr 1
+        rw [List.drop_take]
+    · rw [h2 hk]
+      simp only [hk, if_false, viewLim, viewDec]
+      by_cases hz : n = 0
+      · simp [hz, Io.limErr, Fin.err]
+      · simp [hz]
+  · have hmin : min n s.flat.length = s.flat.length := by omega
+    rw [hmin] at h1 h2
+    simp only [hn, if_false]
+    by_cases hk : k ≤ s.flat.length
+    · obtain ⟨l', e1, e2, e3, e4⟩ := h1 hk
+      simp only [hk, if_true, e1, viewLim, viewDec, e2, e3, e4]
+      have hgt : ¬ n - k ≤ (s.flat.drop k).length := by simp; omega
+      simp only [hgt, if_false]
+      congr 2
+      congr 1
+      exact List.take_of_length_le (by simp; omega)
+    · rw [h2 hk]
+      simp only [hk, if_false, viewLim, viewDec]
+      by_cases hz : s.flat.length = 0
+      · have hn0 : n ≠ 0 := by omega
+        simp [hz, Io.limErr, hn0]
+      · simp [hz]
+
+/-- non-vacuity: a source in five reads (two of them empty, the last with the error attached) against the flat bytes -/
+example : viewSrc ((Io.Src.mk [[1, 2], [], [3], [], [4, 5, 6]] .eof true).readFull 4) = .ok ([1, 2, 3, 4], [5, 6], .eof) := by
+  rfl
 
 end Kmip
